@@ -598,7 +598,9 @@ def cover_inner(args):
         for _ in range(sub or 8):
             seqs.append([rng.choice('hvlrtb') for _ in range(rng.randint(1, 5))])
         unclear = 0
-        for mv in seqs:
+        seqs += [[m] for m in 'hvlrtb']
+        runs = [('eye', mv) for mv in seqs]
+        for start, mv in runs:
             e = fpeps.EnvCTM(psi, init='eye')
             e.update_(opts_svd={'D_total': 256, 'tol': 1e-14}, moves=''.join(mv))
             obs = [('1site', s, e.measure_1site(O, site=fpeps.Site(*s)), ref.measure_1site(O, site=fpeps.Site(*s))) for s in sites]
@@ -609,9 +611,9 @@ def cover_inner(args):
                 if 1e-8 < err < 1e-5 or not np.isfinite(err):
                     unclear += 1        # neither clearly exact nor clearly different (generic tensors: never seen)
                     continue
-                out.append({'op': 'ctmu', 'what': '%s moves=%s %s at %s err=%.1e' % (tag, ''.join(mv), kind, s, err), 'dims': [Nx, Ny], 'moves': mv, 'kind': kind, 'site': list(s),
-                            'exact': bool(err <= 1e-8)})
-        out.append({'op': 'verdict', 'what': '%s unclear=%d' % (tag, unclear), 'verdicts': {'exactness_classified': unclear <= len(seqs)}})
+                out.append({'op': 'ctmu', 'what': '%s start=%s moves=%s %s at %s err=%.1e' % (tag, start, ''.join(mv), kind, s, err), 'dims': [Nx, Ny], 'start': start, 'moves': mv, 'kind': kind,
+                            'site': list(s), 'exact': bool(err <= 1e-8)})
+        out.append({'op': 'verdict', 'what': '%s unclear=%d' % (tag, unclear), 'verdicts': {'exactness_classified': unclear <= len(runs)}})
     elif model == 'bm':
         opts = {'D_total': 4096, 'tol': 1e-14}
         ov = rng.choice(OPTS_VAR)
@@ -770,7 +772,13 @@ def main(tier, seed, replay=None):
                 elif kind == 'cover':
                     e['deps'] = e['deps'][:-1] if e['deps'] else [[0, 0]]
                 elif kind == 'ctmu':
-                    e['exact'] = not e['exact']
+                    # a value claimed exact after a SINGLE move on a lattice with both directions: no corner region is covered yet, the model must refuse
+                    ex = [i for i in idx if len(c[i]['moves']) == 1 and min(c[i]['dims']) >= 2 and not c[i]['exact']]
+                    if not ex:
+                        continue
+                    idx = ex
+                    e = c[idx[len(idx) // 2]]
+                    e['exact'] = True
                 elif kind == 'metric':
                     e['mineig'] = -1000
                 elif kind == 'evolve':
@@ -814,7 +822,8 @@ def main(tier, seed, replay=None):
         'identity_measured': sum(1 for e in ms if not e['terms'][0]['ops']), 'words_of_3_or_4_operators': sum(1 for e in ms if len(e['terms'][0]['ops']) >= 3),
         'metric_events': {w: sum(1 for e in evs if e['op'] == 'metric' and ('ntu[%s]' % w) in e['what']) for w in WHICH} | {'bp': sum(1 for e in evs if e['op'] == 'metric' and ' bp ' in e['what'])},
         'evolve_events': sum(1 for e in evs if e['op'] == 'evolve'), 'cover_events': sum(1 for e in evs if e['op'] == 'cover'),
-        'ctm_update_move_events (exact / not exact as the model says)': [sum(1 for e in evs if e['op'] == 'ctmu' and e['exact']), sum(1 for e in evs if e['op'] == 'ctmu' and not e['exact'])],
+        'ctm_update_move_events': {'measured exact (coverage must be complete in the model)': sum(1 for e in evs if e['op'] == 'ctmu' and e['exact']),
+                                   'measured not exact (no claim; single moves serve as negative controls)': sum(1 for e in evs if e['op'] == 'ctmu' and not e['exact'])},
         'measure_function_raised': sum(1 for e in evs if e['op'] == 'verdict' and 'measure_function_returns' in e['verdicts']),
         'lattices': sorted(set(t['ev'][0]['what'].split()[1] for t in traces if t['job'][0] not in ('cover', 'canonical-zero-metric'))),
         'identically_zero_metrics': sum(1 for e in evs if e['op'] == 'metric' and 'ZERO-METRIC' in e['what'])})
